@@ -261,7 +261,7 @@ func init() {
 					js = append(js, sym.Job{Harness: "VH_C14_reply_ownership", Params: map[string]int{"kind": kind, "mode": mode, "q": 2}})
 				}
 				if mode < 2 {
-					for op := 0; op < 3; op++ {
+					for op := 0; op < 4; op++ {
 						for at := 0; at < 2; at++ {
 							js = append(js, sym.Job{Harness: "VH_C14_concurrent_op", Params: map[string]int{"mode": mode, "op": op, "at": at}})
 						}
@@ -291,6 +291,6 @@ func init() {
 			"thorough": "all 10 request kinds; panicking hooks combined with every fault",
 		},
 		Outside:   []string{"goroutine interleavings are NOT a variable of this check: it decides the sequential lock discipline (lock held at every transport operation, released on every path, never taken twice) from which mutual exclusion of whole exchanges follows by the semantics of sync.RWMutex; data races on fields, fairness and the go test -race clause are outside"},
-		MinCovers: []string{"do-returned", "two-exchanges", "concurrent-op", "raced"},
+		MinCovers: []string{"do-returned", "two-exchanges", "concurrent-op", "raced", "lock-probe"},
 	})
 }
